@@ -529,9 +529,77 @@ func runC11(c *kit.Ctx) {
 	}
 	// ---------- WSP data channel joining another user's control channel
 	c11WspCrossJoin(c, w, names[0], pA, pC)
+	c11OpenSessions(c, w, names[1], pA)
 	for _, n := range names {
 		w.del(n)
 	}
+}
+
+
+// c11OpenSessions: a session is opened while the user holds the rights; the administrator then deletes the user,
+// deletes and re-creates it with narrower rights, or narrows it by update; requests on the ALREADY OPEN session
+// must follow the rights as last saved.
+func c11OpenSessions(c *kit.Ctx, w *c11world, name, pathA string) {
+	for _, transport := range []string{"ws-rtsp", "rtsp-tcp"} {
+		for _, edit := range []string{"none", "delete", "delete-recreate-narrower", "narrow-by-update"} {
+			for _, action := range []string{"pull", "push"} {
+				w.hist = nil
+				w.del(name)
+				pubPath := pathA + "/late"
+				w.save(name, c11user{pass: "pwopen", pull: pathA, push: pubPath}, true)
+				if !w.login(name) {
+					continue
+				}
+				tok := w.tokens[strings.ToLower(name)][0]
+				var cl *kit.RTSPClient
+				var err error
+				if transport == "ws-rtsp" {
+					var resp *http.Response
+					cl, resp, err = kit.DialRTSPWebSocket(w.srv.Addr, pathA, tok)
+					if err != nil {
+						st, _ := wsStatus(resp, err)
+						c.Inconclusive("open-session: ws connect failed: " + st)
+						continue
+					}
+				} else {
+					cl, err = kit.DialRTSP(w.srv.Addr)
+					if err != nil {
+						continue
+					}
+					cl.User, cl.Pass = name, "pwopen"
+				}
+				// the session proves it works before the edit
+				if r, err := cl.Do("OPTIONS", w.srv.URL(pathA), nil, ""); err != nil || r.Code != 200 {
+					cl.Close()
+					continue
+				}
+				switch edit {
+				case "delete":
+					w.del(name)
+				case "delete-recreate-narrower":
+					w.del(name)
+					w.save(name, c11user{pass: "pwopen", pull: "/other/x", push: "/other/x"}, true)
+				case "narrow-by-update":
+					w.save(name, c11user{pass: "pwopen", pull: "/other/x", push: "/other/x"}, false)
+				}
+				want := edit == "none"
+				var code int
+				if action == "pull" {
+					code, err = cl.Play(w.srv.URL(pathA), 0, 2)
+				} else {
+					code, err = cl.Publish(w.srv.URL(pubPath), kit.SDPH264AAC)
+				}
+				out := classifyRTSP(code, err)
+				if action == "push" && media.Get(pubPath) != nil {
+					out = "granted"
+				}
+				cl.Close()
+				waitUntil(func() bool { return media.Get(pubPath) == nil }, 3*time.Second)
+				w.judge(transport+"-open-session", name, action, pathA, out, want, "edit-after-open:"+edit)
+			}
+		}
+	}
+	w.del(name)
 }
 
 func varintMD5(v uint64) string {
